@@ -417,6 +417,27 @@ def evaluate(res, cfg):
     scores = [float(s_) for _, s_ in returned]
     kept = [i for i, (m, _) in enumerate(returned) if same_model(actual, m)]
     self_changed = not same_model(actual, g0)
+    if cfg['keep_best'] and returned:
+        # self must hold COPIES of the winner's attributes: no object shared with any model of the returned dict,
+        # and mutating the returned models in place must not move self
+        shared = []
+        for i, (m, _) in enumerate(list(r.items())):
+            if m is twin:
+                continue
+            for attr in ('coef_', 'statistics_', 'terms', 'logs_', 'distribution', 'link'):
+                a_, b_ = getattr(twin, attr, None), getattr(m, attr, None)
+                if a_ is not None and a_ is b_ and not isinstance(a_, (str, int, float, bool)):
+                    shared.append('%s of returned model %d' % (attr, i))
+        p_before = quiet(twin.predict, X)
+        for m, _ in r.items():
+            if m is not twin and hasattr(m, 'coef_'):
+                m.coef_ *= 0.0
+                if isinstance(m.statistics_.get('cov'), np.ndarray):
+                    m.statistics_['cov'] *= 0.0
+        p_after = quiet(twin.predict, X)
+        if shared or not np.array_equal(p_before, p_after):
+            viol('after keep_best=True the model shares objects with a model of the returned dict', 'independent copies',
+                 dict(shared=shared[:6], predictions_moved_by_mutating_returned_models=bool(not np.array_equal(p_before, p_after))))
     ret_scores = isinstance(ret, dict)
     if not ret_scores and ret is not actual:
         viol('return value is neither a dict nor self', 'self', type(ret).__name__)
@@ -561,9 +582,12 @@ def other_data_probe(res, rng, count):
         keep_best = rng.random() < 0.5
         etaB = eta[keep]
         yB = response(etaB, r)
-        terms = s(0, n_splines=rng.randint(5, 8)) + f(1)
-        if with_lin:
-            terms = terms + l(2)
+        ns0 = rng.randint(5, 8)
+
+        def make_terms(lam_=0.6):
+            tt = s(0, n_splines=ns0, lam=lam_) + f(1, lam=lam_)
+            return tt + l(2, lam=lam_) if with_lin else tt
+        terms = make_terms()
         inp = dict(probe='search-on-other-data', cls=cls, rows_A=int(nA), rows_B=int(keep.sum()), levels=int(nlev), B=kindB,
                    linear_term=with_lin, keep_best=keep_best, data_seed=int(r.get_state()[1][0]))
         try:
@@ -590,6 +614,27 @@ def other_data_probe(res, rng, count):
                                        expected='a search', observed='%s: %s' % (type(e).__name__, e), finding=None))
             continue
         vals = [float(v) for v in out.values()] if isinstance(out, dict) else []
+        # candidates are refitted on B with B's knots and levels (since the S6a repair): their scores must equal those of
+        # fresh models fitted on B -- checked, not proved (warm starts), same tolerance as the main cases
+        if isinstance(out, dict):
+            from pygam.utils import flatten
+            objn = 'UBRE' if cls in ('PoissonGAM', 'LogisticGAM') else 'GCV'
+            for m, sc in list(out.items())[1:]:
+                lam_m = [float(v) for v in flatten(m.lam)]
+                if len(set(lam_m)) != 1:
+                    continue
+                try:
+                    h = getattr(pygam, cls)(make_terms(lam_m[0]), tol=1e-8, max_iter=60)
+                    quiet(h.fit, XB, yB)
+                    indep = float(h.statistics_[objn])
+                except Exception:
+                    res.count('other-data-probe:independent-fit-error')
+                    continue
+                if not (abs(float(sc) - indep) <= SCORE_RTOL * max(1.0, abs(indep))):
+                    res.violations.append(dict(
+                        what='score of a candidate fitted on other data than the searched model differs from a fresh model fitted on that data',
+                        input=dict(inp, lam=lam_m[0]), expected=indep, observed=float(sc), finding=None))
+                res.count('other-data-probe:candidate-scores-compared')
         self_best = bool(vals) and vals[0] == min(vals) and vals.index(min(vals)) == 0
         res.count('other-data-probe:%s:%s' % (kindB, 'keep_best' if keep_best else 'keep_best=False'))
         res.case(('other-data', repr(sorted(inp.items()))), sample=inp if t == 0 else None, nontrivial=True)
